@@ -42,6 +42,9 @@ AddRecord(path, id, fields, vals) ==
        /\ length' = length + RecLen(r)
   /\ UNCHANGED << stype, hdrId, hdrLen >>
 
+\* a template record whose elements carry values is refused by the copying paths: error, nothing changes
+AddRecordRefused == stype = "template" /\ UNCHANGED sbvars
+
 AddRecordUnprepared == stype = "undef" /\ UNCHANGED sbvars    \* error "set type is not supported"
 
 UpdateLen == hdrLen' = length % 65536 /\ UNCHANGED << stype, hdrId, recs, length >>
